@@ -194,8 +194,15 @@ class World:
                                     follow_up_schedule=self.fu_schedule, input_dir="")
                 m._sensor = ScriptedSensor()
                 self.methods.append(m)
-        self.queue_log = []   # (day, site, class, rate) for every put on the follow-up queue
+        self.queue_log = []   # every put on the follow-up queue (observation only)
+        self.visits = []      # every request planned by the follow-up method and what became of it
+        self.fu_days = []     # queue content before each follow-up day and the plan taken from it
+        self.decisions = []   # every call of _filter_candidates_by_proportion (observation only)
+        self.ctx = "-"        # "decision" while update_candidates_for_flags runs
+        self.who = "-"
         self._wrap_queue_puts()
+        for i, m in enumerate(self.methods):
+            self._wrap_method(i, m)
         self.today = None
 
     # -- observation only: log every insertion into the follow-up queue ---------------------
@@ -206,14 +213,53 @@ class World:
                           ("add_unfinished_to_survey_queue", 1)):
             orig = getattr(sched, attr)
 
-            def wrapped(plan, _orig=orig, _cls=cls):
-                world.queue_log.append({"day": world.today, "site": plan.site_id, "cls": _cls,
-                                        "rate": fs(frac(plan.rate_at_site)), "who": world.who,
-                                        "latest": d2i(plan._latest_detection_date)})
-                return _orig(plan)
+            def wrapped(plan, _orig=orig, _cls=cls, _attr=attr):
+                if world._nest == 0:     # entry points may delegate to each other: log the outer call only
+                    world.queue_log.append({
+                        "day": world.today, "site": int(plan.site_id[1:]), "entry": _cls,
+                        "rate": frac(plan.rate_at_site), "who": world.who, "ctx": world.ctx,
+                        "latest": d2i(plan._latest_detection_date),
+                        "rates": [frac(x) for x in plan._detected_rates],
+                        "long": frac(getattr(plan, "rate_at_site_long", 0)),
+                        "windows": (getattr(plan, "_small_window", None), getattr(plan, "_long_window", None)),
+                        "tag": d2i(plan._site.get_latest_tagging_survey_date()),
+                        "was_queued": bool(world.pre_inq.get(plan.site_id, False)),
+                        "in_progress": bool(plan._active_survey_report is not None
+                                            and plan._active_survey_report.survey_in_progress),
+                    })
+                world._nest += 1
+                try:
+                    return _orig(plan)
+                finally:
+                    world._nest -= 1
 
             setattr(sched, attr, wrapped)
-        self.who = "-"
+        self._nest = 0
+        self.pre_inq = {}
+
+    def _wrap_method(self, i, m):
+        world = self
+        orig_ucf = m.update_candidates_for_flags
+        orig_flt = m._filter_candidates_by_proportion
+
+        def ucf(current_date):
+            world.ctx = "decision"
+            try:
+                return orig_ucf(current_date)
+            finally:
+                world.ctx = "-"
+
+        def flt():
+            before = [(int(p.site_id[1:]), frac(p.rate_at_site)) for p in m._candidates_for_flags]
+            rec = {"day": world.today, "method": i, "pool": before, "count": m._detection_count,
+                   "first": d2i(m._first_candidate_date)}
+            out = orig_flt()
+            rec["kept"] = [(int(p.site_id[1:]), frac(p.rate_at_site)) for p in m._candidates_for_flags]
+            world.decisions.append(rec)
+            return out
+
+        m.update_candidates_for_flags = ucf
+        m._filter_candidates_by_proportion = flt
 
     # -- operations --------------------------------------------------------------------------
     def screen_and_update(self, i, dn, screens):
@@ -223,6 +269,7 @@ class World:
         cur = day(dn)
         self.today = dn
         self.who = self.mnames[i]
+        self.pre_inq = dict(self.fu_schedule.get_site_id_queue_list())
         m._sensor.rates = {"s%d" % s: float(Fraction(p, q)) for (s, p, q) in screens}
         if screens:
             wp = Workplan([SurveyPlanner(self.sites[s]) for (s, p, q) in screens], cur)
@@ -240,14 +287,24 @@ class World:
         cur = day(dn)
         self.today = dn
         self.who = "FU"
+        self.pre_inq = dict(self.fu_schedule.get_site_id_queue_list())
+        queue_before = self.queue_in_pop_order()
         wp = self.fu_schedule.get_workplan(cur)
-        planned = [p.site_id for p in wp.site_survey_planners.values()]
+        plans = list(wp.site_survey_planners.values())
+        planned = [p.site_id for p in plans]
+        pre = [(d2i(p._latest_detection_date), d2i(p._site.get_latest_tagging_survey_date()),
+                bool(self.pre_inq.get(p.site_id, False))) for p in plans]
         self.fu_method.deploy_crews(wp, None, None)
         reports, _ = wp.get_reports()
         outcomes = []
-        for sid in planned:
+        for sid, (latest, tag_before, inq) in zip(planned, pre):
             r = reports[sid]
-            outcomes.append((sid, "c" if r.survey_complete else ("p" if r.survey_in_progress else "u")))
+            o = "c" if r.survey_complete else ("p" if r.survey_in_progress else "u")
+            outcomes.append((sid, o))
+            self.visits.append({"day": dn, "site": int(sid[1:]), "outcome": o, "latest": latest,
+                                "tag_before": tag_before, "was_queued": inq,
+                                "surveyed_today": r.time_surveyed_current_day})
+        self.fu_days.append({"day": dn, "queue_before": queue_before, "planned": [int(x[1:]) for x in planned]})
         self.fu_schedule.update(wp, cur, True)
         self.fu_method.update(cur)
         self.who = "-"
@@ -264,6 +321,21 @@ class World:
         pool = [(p.site_id, frac(p.rate_at_site)) for p in m._candidates_for_flags]
         inpool = [1 if m._site_IDs_in_consideration_for_flag.get(s.get_id(), False) else 0 for s in self.sites]
         return pool, inpool, d2i(m._first_candidate_date), m._detection_count
+
+    def inq_bits(self):
+        inq = self.fu_schedule.get_site_id_queue_list()
+        return [1 if inq[s.get_id()] else 0 for s in self.sites]
+
+    def site_plans(self, i, s):
+        """the detected-rate lists of the plans of site s in method i's pool and in the queue"""
+        sid = "s%d" % s
+        m = self.methods[i]
+        pool = [tuple(frac(x) for x in p._detected_rates) for p in m._candidates_for_flags if p.site_id == sid]
+        queue = [tuple(frac(x) for x in e[2]._detected_rates) for e in self.fu_schedule._survey_queue.queue
+                 if e[2].site_id == sid]
+        return {"pool": pool, "queue": sorted(queue), "count": m._detection_count,
+                "inpool": bool(m._site_IDs_in_consideration_for_flag.get(sid, False)),
+                "inq": bool(self.fu_schedule.get_site_id_queue_list()[sid])}
 
     def dump(self):
         parts = []
@@ -305,6 +377,8 @@ def run_history(hist):
     lines = header_lines(hist, w.cap, w.fu_method.get_crew_count())
     impl = ["ok"] * len(lines)
     w.crash = None
+    w.releases = []
+    w.snaps = []
     sink = io.StringIO()
     for dn, dd in enumerate(hist["days"]):
         for s in dd.get("tag", []):
@@ -317,6 +391,14 @@ def run_history(hist):
                 lines.append("screen %d %d %s %d" % (i, s, fs(Fraction(p, q)), dn))
                 impl.append("ok")
             lines.append("update %d %d" % (i, dn))
+            # records released today (known from the history alone) and what the site's plans look like before
+            rd = hist["methods"][i]["rd"]
+            rel = []
+            if dn - rd >= 0:
+                for (mi, s, p, q) in hist["days"][dn - rd].get("screen", []):
+                    if mi == i:
+                        rel.append({"day": dn, "method": i, "site": s, "rate": Fraction(p, q), "dc": dn - rd,
+                                    "tag": d2i(w.sites[s]._latest), "pre": w.site_plans(i, s)})
             try:
                 with contextlib.redirect_stdout(sink), contextlib.redirect_stderr(sink):
                     nf = w.screen_and_update(i, dn, screens)
@@ -324,6 +406,11 @@ def run_history(hist):
                 w.crash = {"day": dn, "method": i, "type": type(e).__name__, "msg": str(e)[:200]}
                 impl.append("crash:" + type(e).__name__)
                 return lines, impl, w
+            for r in rel:
+                r["post"] = w.site_plans(i, r["site"])
+            w.releases += rel
+            w.snaps.append({"day": dn, "op": "update", "method": i, "nflags": nf, "queue": w.queue_in_pop_order(),
+                            "inq": w.inq_bits(), "pools": [w.method_state(k) for k in range(len(w.methods))]})
             impl.append("flags=%d " % nf + w.dump())
         try:
             with contextlib.redirect_stdout(sink), contextlib.redirect_stderr(sink):
@@ -334,5 +421,7 @@ def run_history(hist):
             impl.append("crash:" + type(e).__name__)
             return lines, impl, w
         lines.append("fuday %d [%s]" % (dn, ",".join("[%s,%d]" % (sid[1:], "cpu".index(o)) for sid, o in out)))
+        w.snaps.append({"day": dn, "op": "fuday", "queue": w.queue_in_pop_order(), "inq": w.inq_bits(),
+                        "pools": [w.method_state(k) for k in range(len(w.methods))]})
         impl.append("ok " + w.dump())
     return lines, impl, w
